@@ -55,7 +55,7 @@ func init() {
 
 func (p *c18) ID() string { return "C18" }
 func (p *c18) Rule() string {
-	return "every stack of L layers (quick: L<=2 plus every 3-layer stack with a nil layer or a repeated state; thorough: all L<=4) where each layer is nil or one of 48 MapFS states over {a, d, d/x, d/y, e, e/z} (a,d,e absent/file; d,e also directory incl. explicitly empty); each stack is queried with ReadFile/Stat/ReadDir on every name of the universe, '.', a missing name, and 14 glob patterns (six of them with a character class or an escape but no * or ?); globsort cases: 10 stacks over two fixed layers whose directory names are prefixes of one another followed by a character that sorts before '/' (l, l-v2, l.bak, 'l x', l!), 6 patterns with a wildcard directory part, against the sorted union of fs.Glob per layer; non-trivial = stack with at least one non-nil layer; distinct by the tuple of layer states"
+	return "every stack of L layers (quick: L<=2 plus every 3-layer stack with a nil layer or a repeated state; thorough: all L<=4) where each layer is nil or one of 48 MapFS states over {a, d, d/x, d/y, e, e/z} (a,d,e absent/file; d,e also directory incl. explicitly empty); each stack is queried (as it is, and twice more with the layers at even / odd positions hidden behind a wrapper that implements Open only) with ReadFile/Stat/ReadDir on every name of the universe, '.', a missing name, and 14 glob patterns (six of them with a character class or an escape but no * or ?); globsort cases: 10 stacks over two fixed layers whose directory names are prefixes of one another followed by a character that sorts before '/' (l, l-v2, l.bak, 'l x', l!), 6 patterns with a wildcard directory part, against the sorted union of fs.Glob per layer; non-trivial = stack with at least one non-nil layer; distinct by the tuple of layer states"
 }
 
 func (p *c18) stacks(ctx core.Ctx) int {
@@ -157,6 +157,11 @@ var c18Names = []string{"a", "d", "d/x", "d/y", "e", "e/z", "nope", "d/nope"}
 // the last six are wildcard-free in the sense of "no * and no ?": a character class or an escape is still a pattern
 var c18Globs = []string{"*", "*/*", "d/*", "?", "[ad]*", "e/z", "zz*", "[a", "[ad]", "[^a]", "d/[xy]", "e/[a-z]", `\a`, `d/\x`}
 
+// c18OpenOnly hides every optional interface of a layer (ReadFileFS, ReadDirFS, StatFS, GlobFS): only Open is left.
+type c18OpenOnly struct{ f fs.FS }
+
+func (w c18OpenOnly) Open(name string) (fs.File, error) { return w.f.Open(name) }
+
 func (p *c18) Exec(ctx core.Ctx, cc any) core.Obs {
 	c := cc.(c18Case)
 	if c.Sort != "" {
@@ -200,14 +205,31 @@ func (p *c18) Exec(ctx core.Ctx, cc any) core.Obs {
 
 	// every query is made twice on the same overlay: what a query answers must
 	// not depend on the queries (Glob, ReadDir, Open ...) made before it
+	// passes 2-3 and 4-5 repeat everything on overlays of the same layers with every second layer (even / odd positions)
+	// hidden behind a wrapper that offers Open only - what a zip.Reader or a hand-written fs.FS is: which optional
+	// interfaces a layer implements must not change which layer answers
 	pass := 0
 	fail := func(sig, format string, args ...any) {
-		if pass > 0 {
+		if pass >= 2 {
+			sig += "/open-only-layers"
+		}
+		if pass%2 == 1 {
 			sig += "/on-a-used-overlay"
 		}
 		o.Fail(c, sig, format, args...)
 	}
-	for pass = 0; pass < 2; pass++ {
+	for pass = 0; pass < 6; pass++ {
+		if pass == 2 || pass == 4 {
+			wrapped := make([]fs.FS, len(layers))
+			for i, l := range layers {
+				wrapped[i] = l
+				if l != nil && i%2 == (pass/2)%2 {
+					wrapped[i] = c18OpenOnly{l}
+				}
+			}
+			ov = vuego.NewOverlayFS(wrapped[0], wrapped[1:]...)
+			o.Cell(fmt.Sprintf("layers-behind-open-only-wrapper/%s-positions", []string{"", "odd", "even"}[pass/2]))
+		}
 		for _, name := range c18Names {
 			exp, li, has := first(name)
 			// ReadFile
